@@ -99,6 +99,11 @@ def tb(b):
     return 'TRUE' if b else 'FALSE'
 
 
+def surface_cfg(depth, prop, pool='Core'):
+    text = cfg(constants={'MaxDepth': depth, 'Emit': 'TRUE', 'Prop': '"%s"' % prop, 'PoolName': '"%s"' % pool})
+    return text.replace('CONSTANTS\n', 'CONSTANTS\n  Docs <- Pool%s\n' % pool)
+
+
 RULE_PINNED = ('cases are the distinct reachable states of the TLA+ generator machine(s) (one case per state and '
                'pool document); a case is non-trivial when the specification pins it: its admissible set is a '
                'single value or a single error category (not Open); duplicates produced by -simulate are dropped '
@@ -112,12 +117,12 @@ def c01(ctx, api):
     thorough = ctx['tier'] == 'thorough'
     depth = 3 if thorough else 2
     st, summ = api['run_tlc_to_harness'](ctx, 'surface-bfs', 'GenSurface',
-                                         cfg(constants={'MaxDepth': depth, 'Emit': 'TRUE', 'Prop': '"C01"'}),
+                                         surface_cfg(depth, 'C01'),
                                          timeout=3000 if thorough else 600)
     acc.add('GenSurface BFS depth %d' % depth, st, summ)
     sim = {'num': 12 if thorough else 3, 'depth': 7, 'seed': ctx['seed']}
     st, summ = api['run_tlc_to_harness'](ctx, 'surface-sim', 'GenSurface',
-                                         cfg(constants={'MaxDepth': 6, 'Emit': 'TRUE', 'Prop': '"C01"'}),
+                                         surface_cfg(6, 'C01'),
                                          simulate=sim, timeout=1200)
     acc.add('GenSurface -simulate depth<=6', st, summ, exhaustive=False)
     return acc.result(RULE_PINNED, extra={'bounds': {'bfs_depth': depth, 'pool_documents': 15}})
@@ -135,7 +140,7 @@ def c17(ctx, api):
     # the fused AST nodes behind the identities (and the S6 forms) through the surface generator
     depth = 3 if thorough else 2
     st, summ = api['run_tlc_to_harness'](ctx, 'surface-bfs', 'GenSurface',
-                                         cfg(constants={'MaxDepth': depth, 'Emit': 'TRUE', 'Prop': '"C17"'}),
+                                         surface_cfg(depth, 'C17'),
                                          timeout=3000)
     acc.add('GenSurface BFS depth %d' % depth, st, summ)
     if thorough:
@@ -400,3 +405,26 @@ def c18(ctx, api):
     acc.add('API.tla histories with FeedBack (a result becomes a document of later calls)', st, summ)
     return acc.result(RULE_PINNED + '; every successful result is also walked for non-JSON Go types and must survive json.Marshal/decode unchanged',
                       extra={'model_checks': ['PipeLaw', 'Closed']})
+
+
+# --------------------------------------------------------------------- C15
+@plan('C15')
+def c15(ctx, api):
+    acc = Acc()
+    thorough = ctx['tier'] == 'thorough'
+    reps = 64 if thorough else 8
+    ctx['harness_env'] = {'VERIF_REPEAT': str(reps)}
+    try:
+        st, summ = api['run_tlc_to_harness'](ctx, 'surface', 'GenSurface', surface_cfg(3 if thorough else 2, 'C15', 'Det'), timeout=3000)
+        acc.add('GenSurface depth %d on documents with 2-3-member objects, each case evaluated %d times on rebuilt maps with fresh compilations'
+                % (3 if thorough else 2, reps), st, summ)
+        st, summ = api['run_tlc_to_harness'](ctx, 'call', 'GenCall',
+                                             cfg(constants={'Emit': 'TRUE', 'Prop': '"C15"', 'Small': 9 if thorough else 5}), timeout=3000)
+        acc.add('GenCall (keys, values, items, merge, group_by, from_items, sort_by ... over objects) x %d evaluations' % reps, st, summ)
+        st, summ = api['run_tlc_to_harness'](ctx, 'let', 'GenLet', cfg(constants={'Emit': 'TRUE', 'Prop': '"C15"', 'Depth': 2}), timeout=3000)
+        acc.add('GenLet (duplicate names in one let, multi-select hashes) x %d evaluations' % reps, st, summ)
+    finally:
+        ctx['harness_env'] = {}
+    return acc.result(RULE_PINNED + '; every case is evaluated repeatedly with independently rebuilt maps and fresh compilations; '
+                      'outcomes must be equal, as multisets only at arrays the specification marks as unordered (for unpinned cases: '
+                      'equal up to array order)', extra={'repetitions': reps})
